@@ -77,7 +77,7 @@ func withMirror(out []Cmp, m Cmp) []Cmp {
 	out = append(out, m)
 	_, xk := m.X.(*ssa.Const)
 	_, yk := m.Y.(*ssa.Const)
-	if !xk && !yk && m.Op != token.EQL && m.Op != token.NEQ {
+	if !xk && !yk {
 		out = append(out, Cmp{mirrorOp(m.Op), m.Y, m.X, m.If})
 	}
 	return out
